@@ -160,3 +160,54 @@ func ZZ_C11() {
 	zzrt.Assert(!lateLost, "C11:late-reply-not-dead-lettered")
 	zzrt.Assert(!earlyLost, "C11:reply-sent-before-Result-was-entered-is-dead-lettered")
 }
+
+// ZZ_C11_Conc: R goroutines issue their requests at the same time (the history
+// harness above issues them one after the other). Every request must get a
+// response PID of its own that is registered, and the engine's bookkeeping for
+// it must be free of data races (happens-before detector on the repository's
+// plain and atomic accesses); each reply then reaches its own requester.
+func ZZ_C11_Conc() {
+	R := zzrt.Param("R")
+	e, _ := zzBareEngine()
+	rp := &zzResponder{pid: NewPID(e.address, "responder/x")}
+	e.Registry.lookup[rp.pid.ID] = rp
+	resps := make([]*Response, R)
+	zzrt.RaceDetect(true)
+	zzrt.RaceWatch(true)
+	for i := 0; i < R; i++ {
+		i := i
+		zzrt.Go(func() { resps[i] = e.Request(rp.pid, zzReq{i}, time.Second) })
+	}
+	zzrt.Quiesce()
+	zzrt.RaceWatch(false)
+	zzrt.Assert(len(rp.reqs) == R, "C11:request-not-delivered")
+	for i := 0; i < R; i++ {
+		zzrt.Assert(resps[i] != nil && e.Registry.get(resps[i].pid) == Processer(resps[i]), "C11:response-pid-not-registered-for-its-request")
+		for j := 0; j < i; j++ {
+			if resps[i] != nil && resps[j] != nil && resps[i].pid.ID == resps[j].pid.ID {
+				zzrt.Fail("C11:two-outstanding-requests-share-a-response-pid")
+			}
+		}
+	}
+	// every reply goes to the requester it answers
+	for _, g := range rp.reqs {
+		q, ok := g.Msg.(zzReq)
+		zzrt.Assert(ok && g.Sender != nil, "C11:request-without-sender")
+		if ok && g.Sender != nil {
+			e.Send(g.Sender, zzRep{q.I, 0})
+		}
+	}
+	for i := 0; i < R; i++ {
+		if resps[i] == nil {
+			continue
+		}
+		v, err := resps[i].Result()
+		if err == nil {
+			m, ok := v.(zzRep)
+			if !ok || m.I != i {
+				zzrt.Fail("C11:result-is-the-reply-to-another-request")
+			}
+			zzrt.Reach("concurrent-request-replied")
+		}
+	}
+}
